@@ -234,7 +234,7 @@ def run(chk):
                 'address->byte map and must equal the specification memory map (bytes of unmuted lines), the image must equal '
                 'the specification image, and the listing must show every compilable line exactly once with its address and '
                 'bytes (none for muted lines). Non-trivial = has a byte-producing line.')
-    chk.rule += (' spec/Formats.tla states the three machine formats as decoding machines (Intel HEX records with checksum, base records and a single final end-of-file record; dump rows of sixteen columns; minhex running address); TLC checks FunctionalWhenOk, IhxShape, PrefixMonotone, NoInventedBytes on generated outputs, and recorded outputs of a sample of scenarios and of the repository programs - tokenised without judgement - must satisfy Describes(fmt, items, memory) in spec/Trace_Formats.tla; the listing is a fourth machine (file headers, statement rows, continuation rows) and must also satisfy ShowsStatements: exactly the statements of the specification's assembly, each once, with its address and bytes (none for muted lines, predefined data under the ISA file); corrupted records must be rejected.')
+    chk.rule += (' spec/Formats.tla states the three machine formats as decoding machines (Intel HEX records with checksum, base records and a single final end-of-file record; dump rows of sixteen columns; minhex running address); TLC checks FunctionalWhenOk, IhxShape, PrefixMonotone, NoInventedBytes on generated outputs, and recorded outputs of a sample of scenarios and of the repository programs - tokenised without judgement - must satisfy Describes(fmt, items, memory) in spec/Trace_Formats.tla; the listing is a fourth machine (file headers, statement rows, continuation rows) and must also satisfy ShowsStatements: exactly the statements of the assembly according to the specification, each once, with its address and bytes (none for muted lines, predefined data under the ISA file); corrupted records must be rejected.')
     chk.assumptions = ['all four formats are decoded both by harness/formats.py and by spec/Formats.tla (the harness tokenisers split text into numbers without judging it)',
                        'minhex is read as: address lines set the running address, which starts at 0']
     chk.exhaustive = True
